@@ -3,6 +3,7 @@ import PpciVerif.Model.Dom
 import PpciVerif.Model.LT
 import PpciVerif.Proofs.Graph
 import PpciVerif.Proofs.Dom
+import PpciVerif.Proofs.DomTree
 /-!
 # C25 — dominators, post-dominators and reachability match their path-based definitions
 
@@ -22,7 +23,7 @@ Part C  the validator for immediate-dominator maps (covers Lengauer–Tarjan per
 Part D  theorems about the models of the code
 -/
 namespace Props.C25
-open Spec.Graph Proofs.Graph Proofs.Dom Model.Dom
+open Spec.Graph Proofs.Graph Proofs.Dom Proofs.DomTree Model.Dom
 
 /-! ## Part A — the reference decides the path-based definitions -/
 
@@ -140,6 +141,46 @@ theorem reach_correct (g : Digraph) (hwf : g.WF) (r : List Nat) (h : Model.Dom.r
 theorem reach_terminates (g : Digraph) (hwf : g.WF) : (Model.Dom.reach g.n g.adj).isSome = true :=
   reachLoop_terminates g hwf
 
+/-- **dominator-tree intervals** (`_calculate_dominator_tree`, `_number_dominator_tree`, `dominates`,
+    `strictly_dominates`): given that the idom map is the path-defined one (which `checkIdom` establishes
+    for each real Lengauer–Tarjan output), the numbering loop terminates and, for all nodes reachable
+    from the entry, the interval test `below_or_same` decides dominance and `below` strict dominance -/
+theorem interval_tests_decide_dominance (g : Digraph) (e : Nat) (idomL : List (Option Nat))
+    (hI : ∀ v, v < g.n → idomL.getD v none = idom g e v) (he : e < g.n) :
+    ∃ intv, numberTree g.n (childrenOf g.n idomL) e = some intv ∧
+      ∀ one other, Reach g e one → Reach g e other →
+        dominates intv one other = some (domB g e one other) ∧
+        strictlyDominates intv one other = some (sdomB g e one other) :=
+  numberTree_correct g e idomL hI he
+
+/-- Cytron's recurrence, as a fact about graphs (all nodes reachable): `DF(x)` is the local part plus
+    what is passed up from the children of `x` in the dominator tree -/
+theorem cytron_recurrence (g : Digraph) (e : Nat) (hall : ∀ v, v < g.n → Reach g e v) (x y : Nat) :
+    InDF g e x y ↔ ((g.Edge x y ∧ idom g e y ≠ some x) ∨
+      ∃ z, idom g e z = some x ∧ InDF g e z y ∧ idom g e y ≠ some x) := by
+  have hI : ∀ v, v < g.n → ((List.range g.n).map (idom g e)).getD v none = idom g e v := by
+    intro v hv
+    rw [List.getD_eq_getElem?_getD, List.getElem?_map, List.getElem?_range hv]; rfl
+  rw [cytron g e _ hI hall x y]
+  constructor
+  · rintro (h | ⟨z, hz, h⟩)
+    · exact Or.inl h
+    · exact Or.inr ⟨z, ((mem_children g e _ hI x z).1 hz).2.2, h⟩
+  · rintro (h | ⟨z, hz, h⟩)
+    · exact Or.inl h
+    · have hc := (idom_eq_some_iff g e z x).1 hz
+      have hzn : z < g.n := by obtain ⟨l, p⟩ := hc.1; exact p.lt_right
+      exact Or.inr ⟨z, (mem_children g e _ hI x z).2 ⟨dom_lt hc.2.2.1.1 hc.1, hzn, hz⟩, h⟩
+
+/-- **dominance frontier** (`bottom_up`, `calculate_dominance_frontier`): given the path-defined idom map
+    and all nodes reachable from the entry, the bottom-up computation terminates without KeyError and
+    `df[x]` is exactly the path-defined dominance frontier of `x`, for every node `x` -/
+theorem dominanceFrontier_is_DF (g : Digraph) (hwf : g.WF) (e : Nat) (idomL : List (Option Nat))
+    (hI : ∀ v, v < g.n → idomL.getD v none = idom g e v) (he : e < g.n) (hall : ∀ v, v < g.n → Reach g e v) :
+    ∃ df, dominanceFrontier g.n g.adj idomL e = some df ∧
+      ∀ x, x < g.n → ∃ m, df.getD x none = some m ∧ ∀ y, m.testBit y = true ↔ InDF g e x y :=
+  dominanceFrontier_correct g e idomL hI hwf he hall
+
 /-! ### the defect that was fixed (commit "fix: fixed-point (post-)dominators must not re-evaluate the root node")
 
 Before the fix the exit node was re-evaluated like every other node.  On
@@ -178,5 +219,13 @@ example : (postDominators 13 g13.adj 12).isSome = true := postDominators_termina
 example : Spec.Graph.ipdom g13 12 0 = some 12 ∧ Spec.Graph.ipdom g13 12 5 = some 11 := by decide +kernel
 example : (Model.Dom.reach 3 [[1], [2], [1]]).map (fun r => r.map fun m => m) = some [6, 6, 6] := by decide +kernel
 example : dfB g13 0 3 6 = true ∧ dfB g13 0 3 11 = true ∧ dfB g13 0 3 5 = false := by decide +kernel
+/-- the hypotheses of the interval / frontier theorems are satisfiable: the reference idom map of `g13`,
+    all 13 nodes reachable; the model then numbers the tree and `3` strictly dominates `8` but not `6` -/
+def idom13 : List (Option Nat) := (List.range 13).map (idom g13 0)
+example : (List.range 13).all (fun v => reachB g13 0 v) = true := by decide +kernel
+example : (numberTree 13 (childrenOf 13 idom13) 0).bind (fun iv => strictlyDominates iv 3 8) = some true ∧
+    (numberTree 13 (childrenOf 13 idom13) 0).bind (fun iv => strictlyDominates iv 3 6) = some false := by decide +kernel
+example : (dominanceFrontier 13 g13.adj idom13 0).map (fun df => df.getD 3 none) = some (some (2 ^ 6 ||| 2 ^ 11)) := by
+  decide +kernel
 
 end Props.C25
